@@ -9,15 +9,15 @@ leg 1  every enumerated layout is materialised by `cvh replay cfb` into a real c
 leg 2  `cvh drive cfb`: random real-size layouts; Trace_Cfb.tla re-runs the reader model over the
        logged file and must reproduce what the real reader returned.
 
-sensitivity: (bin/mutant C13 '<sed>@src/cfb.rs', all killed)
-sensitivity: s/if d.len < 4096 {/if d.len <= 4096 {/            mini cutoff off by one  -> replay + trace
-sensitivity: s/sector_id = fats\\[sector_id as usize\\];/sector_id += 1;/   ignore the FAT, read contiguously -> replay + trace
-sensitivity: s/chain.truncate(len);/chain.truncate(len.max(1) - 0);/ is equivalent; instead:
-sensitivity: s/if len > 0 {\\n            chain.truncate/.../  (patch) never truncate -> replay
-sensitivity: s/while sector_id < RESERVED_SECTORS {/while sector_id < 0 {/  DIFAT sectors ignored -> drive (files with > 109 FAT sectors)
-sensitivity: s/Sectors::new(64, ministream)/Sectors::new(128, ministream)/  mini sector size -> replay + trace
-sensitivity: s/h.dir_len \\* h.sector_size/h.dir_len * 128/   v4 directory cut to dir_len entries -> replay (v4, > 1 entry)
-sensitivity: reverting the fix 4f54d44 (v4 root start = ENDOFCHAIN => EmptyRootDir) -> replay + trace
+sensitivity: bin/mutant C13 '<sed>@src/cfb.rs' quick -- 8 of 8 killed:
+sensitivity: s/if d.len < 4096 {/if d.len <= 4096 {/                      mini cutoff off by one      KILLED (abort + replay)
+sensitivity: s/Sectors::new(64, ministream)/Sectors::new(128, ministream)/ mini sector size            KILLED (replay + trace)
+sensitivity: s/h.dir_len \* h.sector_size/h.dir_len * 128/                v4 directory cut short      KILLED (replay + trace)
+sensitivity: s/while sector_id < RESERVED_SECTORS {/while sector_id < 1 {/ DIFAT sectors ignored       KILLED (trace: sparse > 6.9 MB file)
+sensitivity: s/if len > 0 {/if len > 1 {/                                  1-byte streams not truncated KILLED (replay + trace)
+sensitivity: s/h.mini_fat_len \* h.sector_size,/h.mini_fat_len * 64,/     mini FAT cut short          KILLED (replay + trace)
+sensitivity: re-inserting `|| (h.version != 3 && dirs[0].start == ENDOFCHAIN)` (reverts fix 4f54d44)  KILLED (replay)
+sensitivity: s/let start = id as usize \* self.size;/let start = (id as usize + 1) * self.size;/      KILLED (abort)
 """
 import json
 
